@@ -478,4 +478,43 @@ CONTRACTS = {
             ]),
         },
     ),
+
+    'compute_subfeatures': dict(
+        strings='opaque',
+        params={'input_dataframe': {'__class__': 'DataFrame', 'columns': 'list[str]', 'nrows': 'int', 'data': 'FrameData', 'cells': 'const:"str"'}, 'logger': 'inert', 'pbar': 'inert',
+                'args': {'__class__': 'args', 'subfeature_mapping': 'str'}},
+        local_kinds={'new_feature_hash': 'dict[str,list[str]]', 'new_feature': 'list[str]', 'mask_types': 'list[tuple[str,str]]'},
+        inert=['del new_feature'],
+        requires=[
+            ('rows', 'input_dataframe.nrows >= 1'),
+            ('distinct_columns', 'all(input_dataframe.columns[i] != input_dataframe.columns[j] for j in range(len(input_dataframe.columns)) for i in range(j))'),
+            # every seed pair is  a<->b  or  a->b  with a, b columns of the frame
+            ('well_formed_mapping', 'all(ite("<->" in args.subfeature_mapping.split(";")[k], '
+                                    'len(args.subfeature_mapping.split(";")[k].split("<->")) == 2 and '
+                                    'args.subfeature_mapping.split(";")[k].split("<->")[0] in input_dataframe.columns and '
+                                    'args.subfeature_mapping.split(";")[k].split("<->")[1] in input_dataframe.columns, '
+                                    '("->" in args.subfeature_mapping.split(";")[k]) and len(args.subfeature_mapping.split(";")[k].split("->")) == 2 and '
+                                    'args.subfeature_mapping.split(";")[k].split("->")[0] in input_dataframe.columns and '
+                                    'args.subfeature_mapping.split(";")[k].split("->")[1] in input_dataframe.columns) '
+                                    'for k in range(len(args.subfeature_mapping.split(";"))))'),
+        ],
+        ensures=[
+            ('original_columns_first', 'len(result.columns) >= len(old(input_dataframe).columns) and '
+                                       'all(result.columns[c] == old(input_dataframe).columns[c] for c in range(len(old(input_dataframe).columns)))'),
+            ('original_values_untouched', 'all(implies(not any(result.columns[m] == old(input_dataframe).columns[c] for m in range(len(old(input_dataframe).columns), len(result.columns))), '
+                                          'all(result[old(input_dataframe).columns[c]].values[i] == old(input_dataframe)[old(input_dataframe).columns[c]].values[i] for i in range(old(input_dataframe).nrows))) '
+                                          'for c in range(len(old(input_dataframe).columns)))'),
+            ('sub_feature_rule', 'all(implies(not (result.columns[m] in old(input_dataframe).columns), (exists(lambda a: exists(lambda b: exists(lambda v: (a in old(input_dataframe).columns) and (b in old(input_dataframe).columns) and result.columns[m] == "SUBFEATURE-" + a + "&" + v and all(result[result.columns[m]].values[r] == ite(old(input_dataframe)[b].values[r] == v, old(input_dataframe)[a].values[r] + "AND" + old(input_dataframe)[b].values[r], "") for r in range(old(input_dataframe).nrows)), "str"), "str"), "str")) or (exists(lambda a: exists(lambda b: exists(lambda va: exists(lambda vb: (a in old(input_dataframe).columns) and (b in old(input_dataframe).columns) and result.columns[m] == "SUBFEATURE|" + a + "|" + b + "-" + va + "&" + vb and all(result[result.columns[m]].values[r] == ite(old(input_dataframe)[a].values[r] == va and old(input_dataframe)[b].values[r] == vb, "1", "0") for r in range(old(input_dataframe).nrows)), "str"), "str"), "str"), "str"))) '
+                                 'for m in range(len(old(input_dataframe).columns), len(result.columns)))'),
+        ],
+        loops={
+            1: dict(index='s', inv=[('rows', 'forall(lambda nm: implies(nm in new_feature_hash, len(new_feature_hash[nm]) == input_dataframe.nrows), "str")'), ('rule', 'forall(lambda nm: implies(nm in new_feature_hash, (exists(lambda a: exists(lambda b: exists(lambda v: (a in input_dataframe.columns) and (b in input_dataframe.columns) and nm == "SUBFEATURE-" + a + "&" + v and all(new_feature_hash[nm][r] == ite(input_dataframe[b].values[r] == v, input_dataframe[a].values[r] + "AND" + input_dataframe[b].values[r], "") for r in range(input_dataframe.nrows)), "str"), "str"), "str")) or (exists(lambda a: exists(lambda b: exists(lambda va: exists(lambda vb: (a in input_dataframe.columns) and (b in input_dataframe.columns) and nm == "SUBFEATURE|" + a + "|" + b + "-" + va + "&" + vb and all(new_feature_hash[nm][r] == ite(input_dataframe[a].values[r] == va and input_dataframe[b].values[r] == vb, "1", "0") for r in range(input_dataframe.nrows)), "str"), "str"), "str"), "str"))), "str")')]),
+            2: dict(index='u', inv=[]),
+            3: dict(index='w', inv=[]),
+            4: dict(index='q', inv=[('rows', 'forall(lambda nm: implies(nm in new_feature_hash, len(new_feature_hash[nm]) == input_dataframe.nrows), "str")'), ('rule', 'forall(lambda nm: implies(nm in new_feature_hash, (exists(lambda a: exists(lambda b: exists(lambda v: (a in input_dataframe.columns) and (b in input_dataframe.columns) and nm == "SUBFEATURE-" + a + "&" + v and all(new_feature_hash[nm][r] == ite(input_dataframe[b].values[r] == v, input_dataframe[a].values[r] + "AND" + input_dataframe[b].values[r], "") for r in range(input_dataframe.nrows)), "str"), "str"), "str")) or (exists(lambda a: exists(lambda b: exists(lambda va: exists(lambda vb: (a in input_dataframe.columns) and (b in input_dataframe.columns) and nm == "SUBFEATURE|" + a + "|" + b + "-" + va + "&" + vb and all(new_feature_hash[nm][r] == ite(input_dataframe[a].values[r] == va and input_dataframe[b].values[r] == vb, "1", "0") for r in range(input_dataframe.nrows)), "str"), "str"), "str"), "str"))), "str")')]),
+            5: dict(index='r', inv=[('indicator', 'len(new_feature) == r and all(new_feature[i] == ite(out_template_feature[i][0] == mask_type[0] and '
+                                                  'out_template_feature[i][1] == mask_type[1], "1", "0") for i in range(r))')]),
+            6: dict(index='z', inv=[('rows', 'forall(lambda nm: implies(nm in new_feature_hash, len(new_feature_hash[nm]) == input_dataframe.nrows), "str")'), ('rule', 'forall(lambda nm: implies(nm in new_feature_hash, (exists(lambda a: exists(lambda b: exists(lambda v: (a in input_dataframe.columns) and (b in input_dataframe.columns) and nm == "SUBFEATURE-" + a + "&" + v and all(new_feature_hash[nm][r] == ite(input_dataframe[b].values[r] == v, input_dataframe[a].values[r] + "AND" + input_dataframe[b].values[r], "") for r in range(input_dataframe.nrows)), "str"), "str"), "str")) or (exists(lambda a: exists(lambda b: exists(lambda va: exists(lambda vb: (a in input_dataframe.columns) and (b in input_dataframe.columns) and nm == "SUBFEATURE|" + a + "|" + b + "-" + va + "&" + vb and all(new_feature_hash[nm][r] == ite(input_dataframe[a].values[r] == va and input_dataframe[b].values[r] == vb, "1", "0") for r in range(input_dataframe.nrows)), "str"), "str"), "str"), "str"))), "str")')]),
+        },
+    ),
 }
